@@ -20,6 +20,7 @@ mod fam_chg;
 mod fam_marks;
 mod fam_patch;
 mod fam_recon;
+mod fam_anon;
 mod gen;
 mod model;
 
@@ -55,6 +56,7 @@ fn main() {
         "marks" => fam_marks::run(&mut rng, &tier, out),
         "patch" => fam_patch::run(&mut rng, &tier, out),
         "recon" => fam_recon::run(&mut rng, &tier, out),
+        "anon" => fam_anon::run(&mut rng, &tier, out),
         _ => {
             eprintln!("unknown family {}", fam);
             std::process::exit(2);
